@@ -44,7 +44,7 @@ FIELDS = ['local_path', 'abort_reason', 'fail_reason', 'start_time', 'complete_t
 
 
 def cases(tier: str, seed: int) -> list[dict]:
-    n = 400 if tier == 'quick' else 20000
+    n = 1500 if tier == 'quick' else 30000
     return [{'seed': seed, 'n': i} for i in range(n)]
 
 
@@ -61,6 +61,16 @@ def run_case(params: dict) -> dict:
     k_yields = rng.randint(0, 3)
     victim_idx = rng.randrange(n_transfers)
     forced = [rng.choice([0.0, 0.04, 0.09, 0.3, 4.9, 5.05, 9.95, 10.05, 12.0]) for _ in range(rng.randint(0, 4))]
+    # when exactly the call is made: at the instant itself, or at the next management-cycle REQUEST after it (the
+    # caller is then woken in the same loop iteration as the management task, right behind it: the call lands
+    # between the creation of a negotiation task and that task's first step), or at the next cycle END after it
+    op_sync = rng.choice(['instant', 'instant', 'cycle-request', 'cycle-request', 'cycle-end'])
+    # downloads: the peer offers the file on a connection of its own (PeerTransferRequest) at this instant,
+    # whatever became of our queue message - both negotiations can then be in flight at once
+    offer_at = rng.choice([None, None, 0.02, 0.3, 2.0, 6.0]) if direction == 'download' else None
+    # cycle-request, armed before the transfers even exist: the call then lands right behind the very cycle that
+    # creates the first negotiation task for the victim
+    early_arm = op_sync == 'cycle-request' and rng.random() < 0.6
     tm = TransferMonitor()
     viol: list = []
     obs = {'ops_judged': 0, 'frames_decoded': 0, 'orphan_scans': 0, 'field_freeze_checks': 0, 'ops_refused': 0,
@@ -121,6 +131,7 @@ def run_case(params: dict) -> dict:
         first_write: set = set()
 
         server_written: list = []      # (t_write, msg) frames the client wrote on the server connection
+        file_writes: list = []         # (t_write, conn_id, dst, n) bytes the client wrote on file connections
 
         def on_write(tr, data):
             if tr.owner == 'me' and tr.conn.port == w.server.port:
@@ -139,8 +150,8 @@ def run_case(params: dict) -> dict:
             first_write.add(key)
             if is_first and tr.side == 'a':
                 return                      # the init frame
-            if conn.tags.get('typ_seen') == 'F':
-                return
+            # classified later (file connection or not) from what the scripted peer parsed as init message
+            file_writes.append((w.loop.time(), conn, conn.dst if tr.side == 'a' else conn.src, len(data)))
             try:
                 if conn.port in obf_ports and (tr.side == 'a' and conn.port in (peer.obf_port, other.obf_port)
                                                or tr.side == 'b' and conn.port == me.obf_port):
@@ -184,30 +195,77 @@ def run_case(params: dict) -> dict:
                                                                          'tasks': [t.get_name() for t in live]}))
         orig_manage = mgr.manage_transfers
 
+        sync = {'armed': False, 'event': asyncio.Event()}
+
         def manage_transfers():
             orig_manage()
             scan_orphans('cycle-end')
+            if sync['armed'] and op_sync == 'cycle-end':
+                sync['event'].set()
         mgr.manage_transfers = manage_transfers
+        orig_request = mgr.request_management_cycle
+
+        def about_to_get_a_task(t) -> bool:
+            """the cycle that was just requested will (most likely) start a negotiation for ``t``"""
+            st = t.state.VALUE.name
+            if t.is_upload():
+                mine = [u for u in mgr.transfers if u.is_upload() and u.username == t.username]
+                if any(u._transfer_task is not None or u.is_processing() for u in mine):
+                    return False
+                queued = [u for u in mine if u.state.VALUE.name == 'QUEUED']
+                return bool(queued) and queued[0] is t
+            return st in ('QUEUED', 'INCOMPLETE') and not t.remotely_queued and t._remotely_queue_task is None
+
+        def request_management_cycle(flag):
+            orig_request(flag)
+            v = sync['victim']() if sync['armed'] else None
+            if v is not None and op_sync == 'cycle-request' and about_to_get_a_task(v):
+                obs['calls_placed_right_behind_a_granting_cycle'] = obs.get('calls_placed_right_behind_a_granting_cycle', 0) + 1
+                sync['event'].set()
+        mgr.request_management_cycle = request_management_cycle
 
         # -- workload ---------------------------------------------------------------------------
         await settle(0.3)
         transfers = []
-        if direction == 'download':
-            for k in range(n_transfers):
-                transfers.append(await me.call(mgr.download('bob', list(peer_files)[k])))
+
+        def bob_transfers():
+            want_upload = direction == 'upload'
+            return [t for t in mgr.transfers if t.username == 'bob' and t.is_upload() == want_upload]
+
+        def lazy_victim():
+            ts = bob_transfers()
+            return ts[victim_idx] if len(ts) > victim_idx else None
+
+        async def create_transfers():
+            if direction == 'download':
+                for k in range(n_transfers):
+                    await mgr.download('bob', list(peer_files)[k])
+            else:
+                names = sorted(rp)
+                for k in range(n_transfers):
+                    await dl.queue(rp[names[k]])
+                for _ in range(40):
+                    await asyncio.sleep(0.01)
+                    if len(bob_transfers()) >= n_transfers:
+                        break
+        early_fired = False
+        if early_arm:
+            sync['victim'] = lazy_victim
+            sync['armed'] = True
+            creator = w.spawn('me', create_transfers(), name='vf-create-transfers')
+            try:
+                await asyncio.wait_for(sync['event'].wait(), 5.0)
+                early_fired = True
+            except asyncio.TimeoutError:
+                await creator
+            sync['armed'] = False
         else:
-            names = sorted(rp)
-            for k in range(n_transfers):
-                await dl.queue(rp[names[k]])
-            for _ in range(40):
-                await asyncio.sleep(0.01)
-                transfers = [t for t in mgr.transfers if t.is_upload() and t.username == 'bob']
-                if len(transfers) >= n_transfers:
-                    break
+            await me.call(create_transfers())
+        transfers = bob_transfers()
         if not transfers:
             await w.stop_clients()
             return {'skipped': 'no transfers'}
-        victim = transfers[victim_idx % len(transfers)]
+        victim = lazy_victim() or transfers[victim_idx % len(transfers)]
         t0 = w.loop.time()
 
         async def forcer():
@@ -223,9 +281,26 @@ def run_case(params: dict) -> dict:
                 else:
                     w.server.push('me', GetUserStatus.Response('bob', rng.choice([1, 2]), False))
         ft = w.spawn('harness', forcer(), name='vf-forcer')
+        if offer_at is not None:
+            async def offer():
+                await asyncio.sleep(offer_at)
+                upl.offer_lat = 0.0
+                await upl._serve(None, victim.remote_path)
+            w.spawn('bob', offer(), name='vf-unsolicited-offer')
         wait = t0 + t_op - w.loop.time()
-        if wait > 0:
+        if wait > 0 and not early_fired:
             await asyncio.sleep(wait)
+        if early_fired:
+            obs['ops_synchronised_with_a_cycle'] = obs.get('ops_synchronised_with_a_cycle', 0) + 1
+        elif op_sync != 'instant':
+            sync['victim'] = lambda: victim
+            sync['armed'] = True
+            try:
+                await asyncio.wait_for(sync['event'].wait(), 30.0)
+                obs['ops_synchronised_with_a_cycle'] = obs.get('ops_synchronised_with_a_cycle', 0) + 1
+            except asyncio.TimeoutError:
+                pass
+            sync['armed'] = False
         await yields(k_yields)
         stage = {'state': victim.state.VALUE.name, 'queue_task': victim._remotely_queue_task is not None,
                  'transfer_task': victim._transfer_task is not None, 'remotely_queued': victim.remotely_queued,
@@ -234,11 +309,15 @@ def run_case(params: dict) -> dict:
             obs['stage_in_flight'] += 1
         trace.append((round(w.now, 3), 'op', op, stage))
         refused = False
+        from ..simnet import NODE
+        token = NODE.set('me')      # inline (no task of its own): the call starts in this very loop step
         try:
-            await me.call(getattr(mgr, op)(victim))
+            await getattr(mgr, op)(victim)
         except InvalidStateTransition:
             refused = True
             obs['ops_refused'] += 1
+        finally:
+            NODE.reset(token)
         t_ret = w.loop.time()
         ticket_of_victim = set()
         for (t, cid, dst, m) in written:
@@ -252,6 +331,10 @@ def run_case(params: dict) -> dict:
         file_existed = bool(victim.local_path and os.path.exists(victim.local_path))
         n_connects = len(w.net.connect_log)
         n_server = len(w.server.frames)
+        if early_fired:
+            await creator
+            # the other transfers of the peer were created after the call
+            transfers = [victim] + [t for t in bob_transfers() if t is not victim]
         await ft
         await asyncio.sleep(300.0)
         await settle(0.0)
@@ -286,6 +369,13 @@ def run_case(params: dict) -> dict:
                 if sfr:
                     viol.append((f'server-request-after-{op}:{type(sfr[0]).__qualname__.split(".")[0]}:{direction}',
                                  {'n': len(sfr), 'stage_at_call': stage, 'direct': direct}))
+                f_conns = {id(l.conn) for l in peer.links if l.typ == 'F'}
+                obs['file_connections_seen'] = obs.get('file_connections_seen', 0) + len(f_conns)
+                fw = [e for e in file_writes if e[0] > t_ret + 1e-9 and e[2] == 'bob' and id(e[1]) in f_conns]
+                if fw:
+                    viol.append((f'file-connection-write-after-{op}:{direction}',
+                                 {'n': len(fw), 'dt_after_return': round(fw[0][0] - t_ret, 4), 'bytes': sum(e[3] for e in fw),
+                                  'stage_at_call': stage, 'direct': direct}))
             # (c) fields frozen
             obs['field_freeze_checks'] += 1
             after = {f: getattr(victim, f) for f in FIELDS}
@@ -299,6 +389,7 @@ def run_case(params: dict) -> dict:
         scan_orphans('end')
         tm.edge_hooks.clear()
         mgr.manage_transfers = orig_manage
+        mgr.request_management_cycle = orig_request
         w.net.on_write = None
         await w.stop_clients()
         return {'stage': stage, 'refused': refused, 'final': victim.state.VALUE.name,
@@ -323,9 +414,11 @@ def run_case(params: dict) -> dict:
     st = r.get('stage') or {}
     if obs['ops_judged'] and (st.get('queue_task') or st.get('transfer_task') or st.get('frames_so_far')):
         res['csigs'].append(f"{direction}|{op}|{st.get('state')}|{st.get('queue_task')}|{st.get('transfer_task')}|"
-                            f"{direct}|{indirect}|{len(forced)}|{n_transfers}")
+                            f"{direct}|{indirect}|{len(forced)}|{n_transfers}|{op_sync}|{early_arm}|{offer_at}")
     runner.add_cover(res, 'stages_at_call', f"{direction}:{st.get('state')}:q{int(bool(st.get('queue_task')))}t{int(bool(st.get('transfer_task')))}")
     runner.add_cover(res, 'ops', op)
-    res['sample'] = {'direction': direction, 'op': op, 'direct': direct, 'indirect': indirect, 't_op': t_op,
+    runner.add_cover(res, 'op_sync', op_sync)
+    runner.add_cover(res, 'unsolicited_offer', str(offer_at))
+    res['sample'] = {'direction': direction, 'op': op, 'direct': direct, 'indirect': indirect, 't_op': t_op, 'op_sync': op_sync, 'offer_at': offer_at,
                      'k_yields': k_yields, 'forced': forced, 'n_transfers': n_transfers, 'result': r}
     return res
